@@ -19,6 +19,7 @@ import (
 	"go/token"
 	"go/types"
 	"strings"
+	"unicode/utf8"
 
 	"golang.org/x/tools/go/packages"
 	"golang.org/x/tools/go/types/typeutil"
@@ -1066,6 +1067,26 @@ func (e *Eval) callExpr(call *ast.CallExpr, v *env) []Val {
 			if id.Name == "len" && len(args) == 1 && args[0].Kind == Const && args[0].K.Kind() == constant.String {
 				return []Val{K(constant.MakeInt64(int64(len(constant.StringVal(args[0].K)))))}
 			}
+			// len([]rune(s)) / len([]byte(s)) of a constant string
+			if id.Name == "len" && len(call.Args) == 1 {
+				if conv, ok := ast.Unparen(call.Args[0]).(*ast.CallExpr); ok && len(conv.Args) == 1 {
+					if tv, ok := e.Info.Types[conv.Fun]; ok && tv.IsType() {
+						if sl, ok := tv.Type.Underlying().(*types.Slice); ok {
+							if bt, ok := sl.Elem().Underlying().(*types.Basic); ok {
+								if a := e.expr(conv.Args[0], v); a.Kind == Const && a.K.Kind() == constant.String {
+									str := constant.StringVal(a.K)
+									switch bt.Kind() {
+									case types.Int32:
+										return []Val{K(constant.MakeInt64(int64(len([]rune(str)))))}
+									case types.Uint8:
+										return []Val{K(constant.MakeInt64(int64(len(str))))}
+									}
+								}
+							}
+						}
+					}
+				}
+			}
 			return []Val{unknown}
 		}
 	}
@@ -1089,6 +1110,14 @@ func (e *Eval) callExpr(call *ast.CallExpr, v *env) []Val {
 	for _, a := range args {
 		if a.Kind == Const {
 			anyConst = true
+		}
+	}
+	if fn != nil && fn.Pkg() != nil && fn.Pkg().Path() == "unicode/utf8" && len(args) == 1 && args[0].Kind == Const && args[0].K.Kind() == constant.String {
+		switch fn.Name() {
+		case "RuneCountInString":
+			return []Val{K(constant.MakeInt64(int64(utf8.RuneCountInString(constant.StringVal(args[0].K)))))}
+		case "ValidString":
+			return []Val{K(constant.MakeBool(utf8.ValidString(constant.StringVal(args[0].K))))}
 		}
 	}
 	if anyConst {
